@@ -199,6 +199,43 @@ def _cell(v):
     return Ref([v], 0, ())
 
 
+_HELPERS = {}
+DATA_ERROR_CTORS = ("serde::de::Error::invalid_type", "serde::de::Error::invalid_value", "serde::de::Error::invalid_length",
+                    "serde::de::Error::custom")
+
+
+def error_helpers(crate):
+    """The value deserializer's own constructors of a data error (historically `invalid_value(value, expected) -> Error`):
+    free functions of value/de.rs that build their result through serde::de::Error and return the crate's Error, or a
+    Result that is always that error.  {path: "error" | "result"}."""
+    if id(crate) not in _HELPERS:
+        out = {}
+        for f in crate.fns:
+            if f.kind != "fn" or not f.file.endswith("value/de.rs") or f.impl_trait:
+                continue
+            rt = f.local_ty(0)
+            is_err = rt.endswith("error::Error") and not rt.startswith("std::result::Result")
+            is_res = rt.startswith("std::result::Result<") and rt.endswith("error::Error>")
+            if not (is_err or is_res):
+                continue
+            names = set()
+            for _bi, t in f.calls():
+                names |= F.callee_names(t)
+            if not any(n in names for n in DATA_ERROR_CTORS):
+                continue
+            if any(n.startswith("serde::de::Visitor::") for n in names):
+                continue
+            if is_res:
+                # every return must be an Err: no `Ok` aggregate is built for the return place
+                oks = [st for b in f.blocks for st in b["stmts"] if st["k"] == "assign" and st["rv"]["k"] == "agg"
+                       and st["rv"].get("adt") == "std::result::Result" and st["rv"].get("vname") == "Ok"]
+                if oks:
+                    continue
+            out[f.path] = "error" if is_err else "result"
+        _HELPERS[id(crate)] = out
+    return _HELPERS[id(crate)]
+
+
 def de_hook(S, fn, bb, t, args, path):
     c = t["callee"]
     p = c.get("path", "")
@@ -215,8 +252,13 @@ def de_hook(S, fn, bb, t, args, path):
     if c.get("trait") == "serde::de::Visitor":
         path.events.append(("visit", c.get("method"), d))
         return ("skip", Adt("std::result::Result", 0, [UNK]))
-    if p == "value::de::invalid_value":
+    helper = None
+    for crate in S.crates:
+        helper = helper or error_helpers(crate).get(c.get("resolved") or p)
+    if helper is not None:
         path.events.append(("invalid_value",))
+        if helper == "result":
+            return ("skip", Adt("std::result::Result", 1, [T("invalid_value")]))
         return ("skip", T("invalid_value"))
     if c.get("trait") in ("serde::de::DeserializeSeed", "serde::Deserialize"):
         path.events.append(("deserialize-child",))
